@@ -81,3 +81,33 @@ func VerifResetGlobals() {
 	dbInstances = skiplist.New()
 	dbInstancesCount = 0
 }
+
+// VerifWriterCount returns the writer-local live-item delta.
+func VerifWriterCount(w *Writer) int64 { return w.count }
+
+// VerifWriterGCNodes returns the nodes of a writer's pending garbage list.
+func VerifWriterGCNodes(w *Writer) []*skiplist.Node {
+	var out []*skiplist.Node
+	for x := w.gchead; x != nil && len(out) < 1000; x = x.GetLink() {
+		out = append(out, x)
+	}
+	return out
+}
+
+// VerifSnapshotGCNodes returns the nodes of a snapshot's garbage list.
+func VerifSnapshotGCNodes(s *Snapshot) []*skiplist.Node {
+	var out []*skiplist.Node
+	for x := s.gclist; x != nil && len(out) < 1000; x = x.GetLink() {
+		out = append(out, x)
+	}
+	return out
+}
+
+// VerifCurrSn returns the current epoch without a scheduling point.
+func VerifCurrSn(m *Nitro) uint32 { return atomic.LoadUint32(&m.currSn) }
+
+// VerifLastGCSn returns the collection frontier without a scheduling point.
+func VerifLastGCSn(m *Nitro) uint32 { return atomic.LoadUint32(&m.lastGCSn) }
+
+// VerifItemsCount returns the global live-item counter without a scheduling point.
+func VerifItemsCount(m *Nitro) int64 { return atomic.LoadInt64(&m.itemsCount) }
